@@ -98,7 +98,7 @@ impl Session {
         Arc::new(Session {
             m: Mutex::new(St { threads: vec![], expected, token: None, last: None, prefix, decisions: vec![], trace: vec![], error: None, aborted: false, order, events: vec![], ascending_workers: false, script: None, script_pos: 0, idle_bound: 0, idle_run: 0 }),
             cv: Condvar::new(),
-            watchdog: Duration::from_secs(20),
+            watchdog: Duration::from_secs(240),
         })
     }
 
